@@ -1,5 +1,7 @@
 import QuillModel.Backend.FlushProgress
+import QuillModel.Backend.FlushContract
 import QuillModel.Props.C05
+import QuillModel.Props.C17
 /-!
 # C06 — `flush_log()` returns only after all earlier statements are written and flushed
 
@@ -155,6 +157,63 @@ theorem C06_flush_log_returns_after_grace_partial (s0 : BSt) (h0 : StartF s0) (o
   rw [e]
   exact quiet_run_drains hpg suffix hq hn i st f hst hk
 
+/-! ### the contract over positions of the event history
+
+`log` is the history of sink calls (newest first). `isWr sid e` / `isFl sid e`: `e` is a `write_log` / a `flush_sink`
+(completed: `flushed`, or throwing: `fthrow`) of sink `sid`. `PA.ordWrite sid id e`: `e` is the write of the ordinary
+statement `id` to `sid` (not a backtrace replay). `flagLog` holds `(flag, length of log when it was raised)`. -/
+
+/-- every system that is fresh in the sense of the three proof bundles, with no flag logged and the F12 repair in
+    force, is a start state of the contract -/
+theorem C06_startC (s : BSt) (ha : PA.Fresh s) (hc : LoggerFresh s) (hf : StartF s) (h1 : s.flagLog = [])
+    (h2 : s.cfg.flushInvalidatedLoggers = true) : StartC s := ⟨ha, hc.inv, hf, h1, h2⟩
+
+/-- **C06, the contract of `flush_log()`.** For every schedule from a fresh system (with the flush covering loggers
+    marked invalid — F12 repaired): let `st` be a Flush request of context `i` (everything the calling thread logged
+    before it is `pre`), whose flag `f` is raised — `flush_log()` can return. Then `flagLog` holds the position `n` of
+    the raise, and with `raised` = the history as it was at that moment (the oldest `n` events) and `later` = what came
+    after:
+    * the requests before it were processed first: the pop history of the context starts with `pre ++ [st]` (each
+      ordinary statement of `pre` was handed to its accepting sinks in the step that popped it: `C03_pop_emits_dispatch`,
+      `C03_dispatch_exact`);
+    * **none of their writes comes after the raise**: no ordinary write of a statement of `pre` is in `later` — they are
+      all in `raised`;
+    * **every write in `raised` — of every thread, every logger — is followed, still inside `raised`, by a flush of
+      its sink** (a completed `flush_sink`, or one that threw: the failure is reported, C10).
+    So when `flush_log()` returns, every statement the caller logged before has been written to each of its accepting
+    sinks and each of these sinks has been flushed since. -/
+theorem C06_flush_log_contract (s0 : BSt) (h0 : StartC s0) (ops : List Op) (i : Nat) (pre post : List Stmt) (st : Stmt)
+    (f : Nat) (hacc : ((runOps s0 ops).th i).accepted = pre ++ st :: post) (hk : st.kind = .flush f)
+    (hf : f ∈ (runOps s0 ops).flags) :
+    ∃ n, (f, n) ∈ (runOps s0 ops).flagLog ∧ n ≤ (runOps s0 ops).log.length ∧
+      (∃ more, ((runOps s0 ops).th i).popped = pre ++ st :: more) ∧
+      (∀ r ∈ pre, PA.isOrd r = true → ∀ e ∈ (runOps s0 ops).log.take ((runOps s0 ops).log.length - n),
+        ∀ sid, PA.ordWrite sid r.id e = false) ∧
+      (∀ a e b sid, (runOps s0 ops).log.drop ((runOps s0 ops).log.length - n) = a ++ e :: b → isWr sid e = true →
+        ∃ x ∈ a, isFl sid x = true) := by
+  have hT := (start_TI h0).runOps ops
+  obtain ⟨pf, hF⟩ := hT.x.f
+  obtain ⟨n, hn⟩ := hT.c.fl3 f hf
+  obtain ⟨h1, h2⟩ := hT.c.fl1 (f, n) hn
+  obtain ⟨more, hpop⟩ := hF.flush_flag_popped hacc hk hf
+  refine ⟨n, hn, h1, ⟨more, hpop⟩, ?_, ?_⟩
+  · intro r hr ho e he sid
+    have := hT.c.wr (f, n) hn i pre st more hpop hk r hr ho sid
+    unfold PA.wcount at this
+    rw [List.countP_eq_zero] at this
+    simpa using this e he
+  · intro a e b sid hsplit hw
+    have := h2 sid
+    rw [hsplit] at this
+    exact unfl_false_split sid a b e this hw
+
+/-- in particular: in every reachable state, for every raised flag, no sink was left with unflushed output at the
+    moment of the raise — whoever wrote to it -/
+theorem C06_nothing_unflushed_at_raise (s0 : BSt) (h0 : StartC s0) (ops : List Op) (f n : Nat)
+    (hn : (f, n) ∈ (runOps s0 ops).flagLog) (sid : Nat) :
+    n ≤ (runOps s0 ops).log.length ∧ unfl sid ((runOps s0 ops).log.drop ((runOps s0 ops).log.length - n)) = false :=
+  ⟨(((start_TI h0).runOps ops).c.fl1 (f, n) hn).1, (((start_TI h0).runOps ops).c.fl1 (f, n) hn).2 sid⟩
+
 /-! ### witnesses -/
 
 theorem c05Init_startF (b : Bool) : StartF (c05Init b) := ⟨c05Init_start b, rfl, rfl⟩
@@ -266,6 +325,31 @@ example :
     (runOps c06DropInit c06Drop).flags = [0] ∧
     (runOps c06DropInit c06Drop).ths.map (fun t => (t.accepted.length, t.popped.length, t.fail, t.discarded)) = [(2, 2, 0, 0)] ∧
     (runOps c06DropInit c06Drop).actors.map (fun x => x.pend matches .none) = [true] := by
+  decide
+
+theorem c05Init_startC : StartC (c05Init true) := by
+  refine C06_startC _ ⟨by decide, rfl, rfl, rfl, rfl, fun i => ?_⟩ ?_ (c05Init_startF true) rfl rfl
+  · cases i with
+    | zero => rfl
+    | succ j => rw [PA.lgOf_default_of_ge _ _ (by simp [c05Init])]; rfl
+  · refine ⟨⟨rfl, rfl, rfl, rfl, rfl, rfl, by decide⟩, ?_, by decide, ?_, ?_, rfl⟩
+    · intro p hp
+      have : p = (0, 0) := by simpa [c05Init] using hp
+      subst this; exact ⟨by decide, rfl⟩
+    · intro k hk
+      have : k = { sid := 0 } := by simpa [c05Init] using hk
+      subst this; rfl
+    · intro l hl
+      have : l = { gid := 0, sinks := [0], level := 0 } := by simpa [c05Init] using hl
+      subst this; rfl
+
+/-- non-vacuity of `C06_flush_log_contract` on the flush cycle: the hypotheses hold with `pre` = the two statements, and
+    the history is "write, write, flush of sink 0", the flag raised at position 3 -/
+example :
+    (runOps (c05Init true) c06Cycle).flags = [0] ∧ (runOps (c05Init true) c06Cycle).flagLog = [(0, 3)] ∧
+    (runOps (c05Init true) c06Cycle).ths.map (fun t => t.accepted.map (fun st => (st.kind matches .flush 0, st.id))) =
+      [[(false, 0), (false, 1), (true, 0)]] ∧
+    (runOps (c05Init true) c06Cycle).log.reverse.filterMap c06Code = [(0, 0), (0, 0), (1, 0)] := by
   decide
 
 end Backend
